@@ -415,3 +415,567 @@ theorem run_append (c : C) (a b : List Op) :
   | cons op a ih => simp [run, ih]
 
 end U3.Lru
+
+/-! ## Interleaving semantics -/
+namespace U3.Conc
+open U3.Lru (Val)
+
+variable {S O R : Type}
+
+/-- the five kinds of scheduling steps -/
+inductive TRel (stepf : S → O → S × R × List Val) (cfg : Cfg S O R) (i : Nat) : Cfg S O R → Prop
+  | stutter : TRel stepf cfg i cfg
+  | dispose {t : Thread O R} {v : Val} {rest : List Val} (ht : cfg.threads[i]? = some t) (hp : t.pend = v :: rest) :
+      TRel stepf cfg i { cfg with threads := cfg.threads.set i { t with pend := rest }, log := cfg.log ++ [(i, v)] }
+  | release {t : Thread O R} (ht : cfg.threads[i]? = some t) (hp : t.pend = []) (hph : t.phase = .locked)
+      (htodo : t.todo = []) :
+      TRel stepf cfg i { cfg with threads := cfg.threads.set i { t with phase := .idle }, owner := none }
+  | body {t : Thread O R} {op : O} {rest : List O} (ht : cfg.threads[i]? = some t) (hp : t.pend = [])
+      (hph : t.phase = .locked) (htodo : t.todo = op :: rest) :
+      TRel stepf cfg i
+        { cfg with st := (stepf cfg.st op).1,
+                   threads := cfg.threads.set i
+                     { todo := rest, phase := .idle, pend := (stepf cfg.st op).2.2,
+                       results := t.results ++ [(stepf cfg.st op).2.1] },
+                   owner := none,
+                   hist := cfg.hist ++ [(i, op)] }
+  | acquire {t : Thread O R} (ht : cfg.threads[i]? = some t) (hp : t.pend = []) (hph : t.phase = .idle)
+      (htodo : t.todo ≠ []) (hfree : cfg.owner = none) :
+      TRel stepf cfg i { cfg with threads := cfg.threads.set i { t with phase := .locked }, owner := some i }
+
+theorem getElem?_set_cases {α : Type} {l : List α} {i j : Nat} {a u : α} (h : (l.set i a)[j]? = some u) :
+    (j = i ∧ u = a) ∨ (j ≠ i ∧ l[j]? = some u) := by
+  by_cases hij : i = j
+  · subst hij
+    left
+    rw [List.getElem?_set] at h
+    simp at h
+    exact ⟨rfl, h.2.symm⟩
+  · right
+    rw [List.getElem?_set] at h
+    simp [hij] at h
+    exact ⟨fun h' => hij h'.symm, h⟩
+
+theorem tstep_rel (stepf : S → O → S × R × List Val) (cfg : Cfg S O R) (i : Nat) :
+    TRel stepf cfg i (tstep stepf cfg i) := by
+  unfold tstep
+  cases ht : cfg.threads[i]? with
+  | none => exact .stutter
+  | some t =>
+    obtain ⟨todo, phase, pend, results⟩ := t
+    simp only []
+    cases pend with
+    | cons v rest => exact .dispose ht rfl
+    | nil =>
+      simp only []
+      cases phase with
+      | locked =>
+        simp only []
+        cases todo with
+        | nil => exact .release ht rfl rfl rfl
+        | cons op rest => exact .body ht rfl rfl rfl
+      | idle =>
+        simp only []
+        cases todo with
+        | nil => exact .stutter
+        | cons op rest =>
+          simp only []
+          split
+          · rename_i hfree
+            exact .acquire ht rfl rfl (by simp) (by simpa using hfree)
+          · exact .stutter
+
+/-- generic induction over schedules -/
+theorem exec_induction (stepf : S → O → S × R × List Val) (P : Cfg S O R → Prop)
+    (hstep : ∀ cfg i cfg', P cfg → TRel stepf cfg i cfg' → P cfg') (cfg : Cfg S O R) (σ : List Nat)
+    (h0 : P cfg) : P (exec stepf cfg σ) := by
+  induction σ generalizing cfg with
+  | nil => exact h0
+  | cons i σ ih =>
+    simp only [exec, List.foldl_cons]
+    exact ih _ (hstep _ _ _ h0 (tstep_rel stepf cfg i))
+
+/-! ### the lock -/
+
+/-- the lock is owned by exactly the thread in phase `locked`, and a thread inside the lock has no
+pending dispose calls -/
+def LockInv (cfg : Cfg S O R) : Prop :=
+  (∀ i, cfg.owner = some i → ∃ t, cfg.threads[i]? = some t ∧ t.phase = .locked) ∧
+  (∀ i t, cfg.threads[i]? = some t → t.phase = .locked → cfg.owner = some i ∧ t.pend = [])
+
+theorem LockInv.init (s : S) (progs : List (List O)) : LockInv (Cfg.init s progs : Cfg S O R) := by
+  refine ⟨by simp [Cfg.init], ?_⟩
+  intro i t ht hph
+  simp [Cfg.init] at ht
+  obtain ⟨p, _, rfl⟩ := ht
+  simp [Thread.init] at hph
+
+theorem LockInv.step {stepf : S → O → S × R × List Val} {cfg cfg' : Cfg S O R} {i : Nat}
+    (h : LockInv cfg) (hr : TRel stepf cfg i cfg') : LockInv cfg' := by
+  obtain ⟨h1, h2⟩ := h
+  cases hr with
+  | stutter => exact ⟨h1, h2⟩
+  | dispose ht hp =>
+    rename_i t v rest
+    have hnl : t.phase ≠ .locked := by
+      intro hl; have := (h2 i t ht hl).2; simp [hp] at this
+    refine ⟨?_, ?_⟩
+    · intro j hj
+      obtain ⟨u, hu, hul⟩ := h1 j hj
+      have hji : j ≠ i := by rintro rfl; rw [ht] at hu; cases hu; exact hnl hul
+      exact ⟨u, by simp [Ne.symm hji, hu], hul⟩
+    · intro j u hu hul
+      rcases getElem?_set_cases hu with ⟨rfl, rfl⟩ | ⟨_, hu'⟩
+      · exact absurd hul hnl
+      · exact h2 j u hu' hul
+  | release ht hp hph htodo =>
+    rename_i t
+    have hown := (h2 i t ht hph).1
+    refine ⟨by simp, ?_⟩
+    intro j u hu hul
+    rcases getElem?_set_cases hu with ⟨rfl, rfl⟩ | ⟨hji, hu'⟩
+    · simp at hul
+    · have := (h2 j u hu' hul).1
+      rw [hown] at this; cases this; exact absurd rfl hji
+  | body ht hp hph htodo =>
+    rename_i t op rest
+    have hown := (h2 i t ht hph).1
+    refine ⟨by simp, ?_⟩
+    intro j u hu hul
+    rcases getElem?_set_cases hu with ⟨rfl, rfl⟩ | ⟨hji, hu'⟩
+    · simp at hul
+    · have := (h2 j u hu' hul).1
+      rw [hown] at this; cases this; exact absurd rfl hji
+  | acquire ht hp hph htodo hfree =>
+    rename_i t
+    have hlen : i < cfg.threads.length := by
+      rcases Nat.lt_or_ge i cfg.threads.length with h | h
+      · exact h
+      · simp [List.getElem?_eq_none h] at ht
+    refine ⟨?_, ?_⟩
+    · intro j hj
+      simp at hj; subst hj
+      exact ⟨{ t with phase := .locked }, by simp [hlen], rfl⟩
+    · intro j u hu hul
+      rcases getElem?_set_cases hu with ⟨rfl, rfl⟩ | ⟨_, hu'⟩
+      · exact ⟨rfl, hp⟩
+      · have := (h2 j u hu' hul).1
+        rw [hfree] at this; cases this
+
+theorem lockInv_exec (stepf : S → O → S × R × List Val) (s : S) (progs : List (List O)) (σ : List Nat) :
+    LockInv (exec stepf (Cfg.init s progs) σ) :=
+  exec_induction stepf LockInv (fun _ _ _ h hr => h.step hr) _ σ (LockInv.init s progs)
+
+theorem action_dispose_iff {cfg : Cfg S O R} {i : Nat} :
+    action cfg i = .dispose ↔ ∃ t, cfg.threads[i]? = some t ∧ t.pend ≠ [] := by
+  unfold action
+  cases ht : cfg.threads[i]? with
+  | none => simp
+  | some t =>
+    simp only []
+    cases hp : t.pend with
+    | cons v rest => simp [hp]
+    | nil =>
+      simp only []
+      cases t.phase <;> simp [hp]
+      cases t.todo <;> simp
+      split <;> simp
+
+theorem action_body_iff {cfg : Cfg S O R} {i : Nat} :
+    action cfg i = .body ↔ ∃ t, cfg.threads[i]? = some t ∧ t.pend = [] ∧ t.phase = .locked := by
+  unfold action
+  cases ht : cfg.threads[i]? with
+  | none => simp
+  | some t =>
+    obtain ⟨todo, phase, pend, results⟩ := t
+    cases pend with
+    | cons v rest => simp
+    | nil =>
+      cases phase with
+      | locked => simp
+      | idle =>
+        cases todo with
+        | nil => simp
+        | cons op rest => simp only []; split <;> simp
+
+/-! ### linearizability: the concurrent execution equals the sequential one in lock order -/
+
+theorem map_set_same {α β : Type} {l : List α} {i : Nat} {t : α} (f : α → β) (a : α) (ht : l[i]? = some t)
+    (hf : f a = f t) : (l.set i a).map f = l.map f := by
+  apply List.ext_getElem?
+  intro j
+  by_cases hij : i = j
+  · subst hij
+    simp [List.getElem?_set, ht]
+    exact ⟨(List.getElem?_eq_some_iff.mp ht).1, hf⟩
+  · simp [hij]
+
+theorem flatten_set_cons {L : List (List Val)} {i : Nat} {v : Val} {rest : List Val}
+    (h : L[i]? = some (v :: rest)) : L.flatten.Perm (v :: (L.set i rest).flatten) := by
+  induction L generalizing i with
+  | nil => simp at h
+  | cons x xs ih =>
+    cases i with
+    | zero => simp at h; subst h; simp
+    | succ i =>
+      simp at h
+      have := ih h
+      simp
+      exact (List.Perm.append_left x this).trans List.perm_middle
+
+theorem flatten_set_nil {L : List (List Val)} {i : Nat} (ds : List Val)
+    (h : L[i]? = some []) : (L.set i ds).flatten.Perm (ds ++ L.flatten) := by
+  induction L generalizing i with
+  | nil => simp at h
+  | cons x xs ih =>
+    cases i with
+    | zero => simp at h; subst h; simp
+    | succ i =>
+      simp at h
+      have := ih h
+      simp
+      refine (List.Perm.append_left x this).trans ?_
+      rw [← List.append_assoc, ← List.append_assoc]
+      exact List.Perm.append_right _ List.perm_append_comm
+
+def pending (cfg : Cfg S O R) : List Val := (cfg.threads.map (·.pend)).flatten
+
+theorem seqRun_snoc (stepf : S → O → S × R × List Val) (s : S) (n : Nat) (h : List (Nat × O)) (e : Nat × O) :
+    seqRun stepf s n (h ++ [e]) = seqStep stepf (seqRun stepf s n h) e := by
+  simp [seqRun, List.foldl_append]
+
+structure LinInv (stepf : S → O → S × R × List Val) (s0 : S) (n : Nat) (cfg : Cfg S O R) : Prop where
+  st : cfg.st = (seqRun stepf s0 n cfg.hist).st
+  res : cfg.threads.map (·.results) = (seqRun stepf s0 n cfg.hist).results
+  disp : (cfg.log.map (·.2) ++ pending cfg).Perm (seqRun stepf s0 n cfg.hist).disposed
+
+theorem LinInv.init (stepf : S → O → S × R × List Val) (s : S) (progs : List (List O)) :
+    LinInv stepf s progs.length (Cfg.init s progs : Cfg S O R) := by
+  refine ⟨rfl, ?_, ?_⟩
+  · simp [Cfg.init, seqRun, Seq.init, Thread.init, Function.comp_def]
+    exact List.map_const'
+  · simp [Cfg.init, seqRun, Seq.init, Thread.init, pending, Function.comp_def]
+
+theorem LinInv.step {stepf : S → O → S × R × List Val} {s0 : S} {n : Nat} {cfg cfg' : Cfg S O R} {i : Nat}
+    (h : LinInv stepf s0 n cfg) (hr : TRel stepf cfg i cfg') : LinInv stepf s0 n cfg' := by
+  obtain ⟨h1, h2, h3⟩ := h
+  cases hr with
+  | stutter => exact ⟨h1, h2, h3⟩
+  | dispose ht hp =>
+    rename_i t v rest
+    refine ⟨h1, ?_, ?_⟩
+    · refine (map_set_same (·.results) _ ht ?_).trans h2; rfl
+    · simp only [pending, List.map_set, List.map_append, List.map_cons, List.map_nil]
+      have hL : (cfg.threads.map (·.pend))[i]? = some (v :: rest) := by simp [ht, hp]
+      have := flatten_set_cons hL
+      refine List.Perm.trans ?_ h3
+      simp only [pending]
+      rw [List.append_assoc]
+      exact List.Perm.append_left _ this.symm
+  | release ht hp hph htodo =>
+    rename_i t
+    refine ⟨h1, ?_, ?_⟩
+    · refine (map_set_same (·.results) _ ht ?_).trans h2; rfl
+    · simp only [pending]; rw [map_set_same (·.pend) _ ht (by rfl)]; exact h3
+  | body ht hp hph htodo =>
+    rename_i t op rest
+    refine ⟨?_, ?_, ?_⟩ <;> dsimp only <;> simp only [seqRun_snoc, seqStep]
+    · rw [h1]
+    · simp only [List.map_set]
+      rw [← h2, ← h1]
+      simp [ht]
+    · simp only [pending, List.map_set]
+      have hL : (cfg.threads.map (·.pend))[i]? = some [] := by simp [ht, hp]
+      have := flatten_set_nil (stepf cfg.st op).2.2 hL
+      rw [← h1]
+      refine (List.Perm.append_left _ this).trans ?_
+      rw [← List.append_assoc]
+      refine (List.Perm.append_right _ List.perm_append_comm).trans ?_
+      rw [List.append_assoc]
+      refine List.perm_append_comm.trans ?_
+      exact List.Perm.append_right _ h3
+  | acquire ht hp hph htodo hfree =>
+    rename_i t
+    refine ⟨h1, ?_, ?_⟩
+    · refine (map_set_same (·.results) _ ht ?_).trans h2; rfl
+    · simp only [pending]; rw [map_set_same (·.pend) _ ht (by rfl)]; exact h3
+
+theorem linInv_exec (stepf : S → O → S × R × List Val) (s : S) (progs : List (List O)) (σ : List Nat) :
+    LinInv stepf s progs.length (exec stepf (Cfg.init s progs) σ) :=
+  exec_induction stepf _ (fun _ _ _ h hr => h.step hr) _ σ (LinInv.init stepf s progs)
+
+/-! ### program order: the history is the interleaving of the programs chosen by the lock order -/
+
+theorem histOf_snoc (progs : List (List O)) (τ : List Nat) (i : Nat) :
+    histOf progs (τ ++ [i]) = histOf progs τ ++
+      (match (restOf progs τ)[i]? with | some (op :: _) => [(i, op)] | _ => []) := by
+  induction τ generalizing progs with
+  | nil =>
+    simp only [List.nil_append, histOf, restOf]
+    split <;> simp [*]
+  | cons j τ ih =>
+    simp only [List.cons_append, histOf, restOf]
+    split <;> simp [ih]
+
+theorem restOf_snoc (progs : List (List O)) (τ : List Nat) (i : Nat) :
+    restOf progs (τ ++ [i]) =
+      (match (restOf progs τ)[i]? with
+       | some (_ :: rest) => (restOf progs τ).set i rest
+       | _ => restOf progs τ) := by
+  induction τ generalizing progs with
+  | nil =>
+    simp only [List.nil_append, restOf]
+    split <;> simp [*]
+  | cons j τ ih =>
+    simp only [List.cons_append, restOf]
+    split <;> simp [ih]
+
+structure OrdInv (progs : List (List O)) (cfg : Cfg S O R) : Prop where
+  hist : cfg.hist = histOf progs (cfg.hist.map (·.1))
+  todo : cfg.threads.map (·.todo) = restOf progs (cfg.hist.map (·.1))
+
+theorem OrdInv.init (s : S) (progs : List (List O)) : OrdInv progs (Cfg.init s progs : Cfg S O R) := by
+  refine ⟨by simp [Cfg.init, histOf], ?_⟩
+  simp [Cfg.init, restOf, Thread.init, Function.comp_def]
+
+theorem OrdInv.step {stepf : S → O → S × R × List Val} {progs : List (List O)} {cfg cfg' : Cfg S O R} {i : Nat}
+    (h : OrdInv progs cfg) (hr : TRel stepf cfg i cfg') : OrdInv progs cfg' := by
+  obtain ⟨h1, h2⟩ := h
+  cases hr with
+  | stutter => exact ⟨h1, h2⟩
+  | dispose ht hp => refine ⟨h1, ?_⟩; refine (map_set_same (·.todo) _ ht ?_).trans h2; rfl
+  | release ht hp hph htodo => refine ⟨h1, ?_⟩; refine (map_set_same (·.todo) _ ht ?_).trans h2; rfl
+  | acquire ht hp hph htodo hfree => refine ⟨h1, ?_⟩; refine (map_set_same (·.todo) _ ht ?_).trans h2; rfl
+  | body ht hp hph htodo =>
+    rename_i t op rest
+    have hi : (restOf progs (cfg.hist.map (·.1)))[i]? = some (op :: rest) := by
+      rw [← h2]; simp [ht, htodo]
+    refine ⟨?_, ?_⟩ <;> dsimp only <;> simp only [List.map_append, List.map_cons, List.map_nil]
+    · rw [histOf_snoc, hi, ← h1]
+    · rw [restOf_snoc, hi, List.map_set, h2]
+
+theorem ordInv_exec (stepf : S → O → S × R × List Val) (s : S) (progs : List (List O)) (σ : List Nat) :
+    OrdInv progs (exec stepf (Cfg.init s progs) σ) :=
+  exec_induction stepf _ (fun _ _ _ h hr => h.step hr) _ σ (OrdInv.init s progs)
+
+theorem done_iff {cfg : Cfg S O R} : cfg.done = true ↔
+    ∀ t ∈ cfg.threads, t.todo = [] ∧ t.pend = [] ∧ t.phase = .idle := by
+  simp [Cfg.done, List.all_eq_true, and_assoc]
+
+theorem pending_done {cfg : Cfg S O R} (h : cfg.done = true) : pending cfg = [] := by
+  rw [done_iff] at h
+  simp only [pending, List.flatten_eq_nil_iff, List.mem_map]
+  rintro l ⟨t, ht, rfl⟩
+  exact (h t ht).2.1
+
+theorem todo_done {cfg : Cfg S O R} (h : cfg.done = true) : (cfg.threads.map (·.todo)).all List.isEmpty = true := by
+  rw [done_iff] at h
+  simp only [List.all_eq_true, List.mem_map]
+  rintro l ⟨t, ht, rfl⟩
+  simp [(h t ht).1]
+
+end U3.Conc
+
+/-! ## sequential run in lock order = `Lru.run` -/
+namespace U3.Lru
+open U3.Conc
+
+theorem seqFold_eq_run (h : List (Nat × Op)) (q : Seq C Out) :
+    (h.foldl (seqStep Lru.step) q).st = (run q.st (h.map (·.2))).c ∧
+    (h.foldl (seqStep Lru.step) q).disposed = q.disposed ++ (run q.st (h.map (·.2))).disposed := by
+  induction h generalizing q with
+  | nil => simp [run]
+  | cons e h ih =>
+    simp only [List.foldl_cons, List.map_cons, run]
+    obtain ⟨h1, h2⟩ := ih (seqStep Lru.step q e)
+    refine ⟨by rw [h1]; rfl, ?_⟩
+    rw [h2]; simp [seqStep]
+
+theorem seqRun_eq_run (c : C) (n : Nat) (h : List (Nat × Op)) :
+    (seqRun Lru.step c n h).st = (run c (h.map (·.2))).c ∧
+    (seqRun Lru.step c n h).disposed = (run c (h.map (·.2))).disposed := by
+  have := seqFold_eq_run h (Seq.init c n)
+  simpa [seqRun, Seq.init] using this
+
+theorem StepRel.mem {c c' : C} {op : Op} {ds : List Val} (hr : StepRel c op c' ds) {a : Key × Val}
+    (ha : a ∈ c'.items) : a ∈ c.items ∨ ∃ k v, op = .set k v ∧ a = (k, v) := by
+  cases hr with
+  | refresh hp hop hins =>
+    simp at ha
+    rcases ha with ha | rfl
+    · exact .inl ((pop_sublist hp).subset ha)
+    · exact .inl (pop_mem hp)
+  | replace hp =>
+    simp at ha
+    rcases ha with ha | rfl
+    · exact .inl ((pop_sublist hp).subset ha)
+    · exact .inr ⟨_, _, rfl, rfl⟩
+  | same _ _ => exact .inl ha
+  | insert hp hle =>
+    simp at ha
+    rcases ha with ha | rfl
+    · exact .inl ha
+    · exact .inr ⟨_, _, rfl, rfl⟩
+  | evict hp hgt he =>
+    rename_i k v ek ev rest
+    have : a ∈ c.items ++ [(k, v)] := by rw [he]; exact List.mem_cons_of_mem _ ha
+    simp at this
+    rcases this with ha | rfl
+    · exact .inl ha
+    · exact .inr ⟨_, _, rfl, rfl⟩
+  | delete hp => exact .inl ((pop_sublist hp).subset ha)
+  | clear => simp at ha
+
+theorem keys_unique {l : Items} (hn : (l.map (·.1)).Nodup) {k : Key} {p q : Val}
+    (hp : (k, p) ∈ l) (hq : (k, q) ∈ l) : p = q := by
+  induction l with
+  | nil => simp at hp
+  | cons a t ih =>
+    simp at hn hp hq
+    rcases hp with rfl | hp <;> rcases hq with hq | hq
+    · cases hq; rfl
+    · exact absurd hq (hn.1 _ )
+    · subst hq; exact absurd hp (hn.1 _)
+    · exact ih hn.2 hp hq
+
+end U3.Lru
+
+namespace U3.Mgr
+open U3.Lru
+
+theorem stepM_goc (m : M) (k : Key) :
+    (∃ p rest, pop m.cache.items k = some (p, rest) ∧
+      stepM m (.goc k) = ({ m with cache := { m.cache with items := rest ++ [(k, p)] }, refs := p :: m.refs },
+                          .pool p false, [])) ∨
+    (pop m.cache.items k = none ∧
+      stepM m (.goc k) =
+        ({ m with cache := (Lru.step m.cache (.set k m.next)).1, next := m.next + 1, refs := m.next :: m.refs,
+                  dropped := m.dropped ++ (Lru.step m.cache (.set k m.next)).2.2 }, .pool m.next true, [])) := by
+  cases hp : pop m.cache.items k with
+  | some x =>
+    obtain ⟨p, rest⟩ := x
+    left
+    exact ⟨p, rest, rfl, by simp [stepM, Lru.step, touch, hp]⟩
+  | none =>
+    right
+    refine ⟨rfl, ?_⟩
+    have := set_popitem_total m.cache k m.next
+    simp [stepM, Lru.step, touch, hp] at this ⊢
+    simp [this]
+
+def KeysNodup (m : M) : Prop := (m.cache.items.map (·.1)).Nodup
+
+theorem stepM_nodup {m : M} (op : MOp) (h : KeysNodup m) : KeysNodup (stepM m op).1 := by
+  cases op with
+  | goc k =>
+    rcases stepM_goc m k with ⟨p, rest, hp, hs⟩ | ⟨hp, hs⟩
+    · rw [hs]
+      have := (step_rel m.cache (.get k)).nodup h
+      simpa [KeysNodup, Lru.step, touch, hp] using this
+    · rw [hs]; exact (step_rel m.cache (.set k m.next)).nodup h
+  | clear => simp [stepM, KeysNodup, Lru.step]
+  | release p => exact h
+  | gc => exact h
+  | len => exact h
+
+theorem runM_nodup (m : M) (ops : List MOp) (h : KeysNodup m) : KeysNodup (runM m ops) := by
+  induction ops generalizing m with
+  | nil => exact h
+  | cons op ops ih => exact ih _ (stepM_nodup op h)
+
+/-- an entry of the cache after a step was there before, or is the pool just created for a missing key -/
+theorem stepM_mem {m : M} {op : MOp} {a : Key × Val} (ha : a ∈ (stepM m op).1.cache.items) :
+    a ∈ m.cache.items ∨ ∃ k, op = .goc k ∧ pop m.cache.items k = none ∧ a = (k, m.next) := by
+  cases op with
+  | goc k =>
+    rcases stepM_goc m k with ⟨p, rest, hp, hs⟩ | ⟨hp, hs⟩
+    · rw [hs] at ha
+      simp at ha
+      rcases ha with ha | rfl
+      · exact .inl ((pop_sublist hp).subset ha)
+      · exact .inl (pop_mem hp)
+    · rw [hs] at ha
+      rcases (step_rel m.cache (.set k m.next)).mem ha with h | ⟨k', v, he, rfl⟩
+      · exact .inl h
+      · cases he; exact .inr ⟨_, rfl, hp, rfl⟩
+  | clear => simp [stepM, Lru.step] at ha
+  | release p => exact .inl ha
+  | gc => exact .inl ha
+  | len => exact .inl ha
+
+/-- the pool cached for a key only changes through absence of the key -/
+theorem stepM_stable {m : M} (hn : KeysNodup m) {op : MOp} {k : Key} {p q : PoolId}
+    (hp : (k, p) ∈ m.cache.items) (hq : (k, q) ∈ (stepM m op).1.cache.items) : p = q := by
+  rcases stepM_mem hq with h | ⟨k', _, hnone, he⟩
+  · exact keys_unique hn hp h
+  · cases he
+    exact absurd rfl (pop_none hnone _ hp)
+
+theorem runM_stays {m : M} (hn : KeysNodup m) {k : Key} {p : PoolId} (ops : List MOp)
+    (hp : (k, p) ∈ m.cache.items) (hs : StaysCached k m ops) : (k, p) ∈ (runM m ops).cache.items := by
+  induction ops generalizing m with
+  | nil => exact hp
+  | cons op ops ih =>
+    obtain ⟨h1, h2⟩ := hs
+    cases hx : pop (stepM m op).1.cache.items k with
+    | none => simp [hx] at h1
+    | some x =>
+      obtain ⟨q, r⟩ := x
+      have hq := pop_mem hx
+      have := stepM_stable hn hp hq
+      subst this
+      exact ih (stepM_nodup op hn) hq h2
+
+theorem goc_hit {m : M} (hn : KeysNodup m) {k : Key} {p : PoolId} (hp : (k, p) ∈ m.cache.items) :
+    (stepM m (.goc k)).2.1 = .pool p false := by
+  rcases stepM_goc m k with ⟨p', rest, hp', hs⟩ | ⟨hnone, _⟩
+  · rw [hs]; simp; exact keys_unique hn (pop_mem hp') hp
+  · exact absurd rfl (pop_none hnone _ hp)
+
+/-- after a get-or-create, if the key is cached at all then it is cached with the returned pool -/
+theorem goc_cached {m : M} (hn : KeysNodup m) {k : Key} {q : PoolId}
+    (hq : (k, q) ∈ (stepM m (.goc k)).1.cache.items) : ∃ f, (stepM m (.goc k)).2.1 = .pool q f := by
+  rcases stepM_goc m k with ⟨p, rest, hp, hs⟩ | ⟨hnone, hs⟩
+  · have hn' := stepM_nodup (.goc k) hn
+    rw [hs] at hq hn' ⊢
+    have : (k, p) ∈ (rest ++ [(k, p)] : Items) := by simp
+    have := keys_unique hn' hq this
+    subst this
+    exact ⟨false, rfl⟩
+  · rcases stepM_mem hq with h | ⟨k', he, _, ha⟩
+    · exact absurd rfl (pop_none hnone _ h)
+    · cases ha
+      rw [hs]; exact ⟨true, rfl⟩
+
+theorem stepM_bounded {m : M} (op : MOp) (h : m.cache.items.length ≤ m.cache.cap) :
+    (stepM m op).1.cache.items.length ≤ (stepM m op).1.cache.cap := by
+  cases op with
+  | goc k =>
+    rcases stepM_goc m k with ⟨p, rest, hp, hs⟩ | ⟨hp, hs⟩
+    · rw [hs]; have := pop_length hp; simp; omega
+    · rw [hs]; simp only []; rw [step_cap]; exact (step_rel m.cache (.set k m.next)).bounded h
+  | clear => simp [stepM, Lru.step]
+  | release p => exact h
+  | gc => exact h
+  | len => exact h
+
+theorem stepM_cap (m : M) (op : MOp) : (stepM m op).1.cache.cap = m.cache.cap := by
+  cases op with
+  | goc k =>
+    rcases stepM_goc m k with ⟨p, rest, hp, hs⟩ | ⟨hp, hs⟩
+    · rw [hs]
+    · rw [hs]; simp only []; rw [step_cap]
+  | clear => simp [stepM, Lru.step]
+  | release p => rfl
+  | gc => rfl
+  | len => rfl
+
+theorem runM_bounded (m : M) (ops : List MOp) (h : m.cache.items.length ≤ m.cache.cap) :
+    (runM m ops).cache.items.length ≤ m.cache.cap := by
+  induction ops generalizing m with
+  | nil => exact h
+  | cons op ops ih =>
+    have := ih (stepM m op).1 (stepM_bounded op h)
+    rwa [stepM_cap] at this
+
+end U3.Mgr
